@@ -650,8 +650,15 @@ def check_emptiness_cache(ctx) -> None:
     ctx.analysed(ie)
     defs = D.definitions(f)
     rets = C.returns_of(f)
-    if len(rets) != 1 or rets[0].value is None:
-        raise AnalysisError("ClassDB.is_empty: expected a single return")
+
+    def _flag(r):
+        v_ = r.value
+        if isinstance(v_, ast.Call) and isinstance(v_.func, ast.Name) and v_.func.id == "bool" and len(v_.args) == 1:
+            v_ = v_.args[0]
+        return v_
+
+    if not rets or any(r.value is None for r in rets) or len({norm(_flag(r)) for r in rets}) != 1:
+        raise AnalysisError("ClassDB.is_empty: expected every return to hand back the same flag")
     rv = rets[0].value
     if isinstance(rv, ast.Call) and isinstance(rv.func, ast.Name) and rv.func.id == "bool" and len(rv.args) == 1:
         rv = rv.args[0]
@@ -855,6 +862,18 @@ def t14_normalise_before_use(ctx, modules: Tuple[str, ...], rule_id: str = "T14"
                      and not any(x is y for y in ast.walk(st)) and not C.dominates(f, st, x)]
             # a debug assertion / log line that mentions the raw argument is not a use
             early = [x for x in early if not isinstance(C.stmt_of(x), ast.Assert) and "logger." not in norm(C.stmt_of(x))[:12]]
+            # handing the raw argument on to another function (which may take both forms itself) is not a use of one form;
+            # comparing it, or using it as a key, is
+            def _form_sensitive(x):
+                par = getattr(x, "_parent", None)
+                if isinstance(par, ast.Compare):
+                    return True
+                if isinstance(par, ast.Subscript) and par.slice is x:
+                    return True
+                if isinstance(par, ast.Call) and isinstance(par.func, ast.Attribute) and par.func.attr in ("get", "pop", "setdefault", "index", "count") and x in par.args:
+                    return True
+                return False
+            early = [x for x in early if _form_sensitive(x)]
             if early:
                 x = early[0]
                 ctx.violation(rule_id, x, f"{fi.qualname} reads `{p}` in `{norm(C.stmt_of(x))[:70]}` before `{norm(st.test)}` has brought it to one form (`{norm(b)}`): for the other "
